@@ -470,8 +470,16 @@ def run(chk):
     chk.traces += nok
     chk.cov['pipeline_traces'] = len(ptraces)
     # several complete runs in one process, each from freshly loaded files: a run is a function of its inputs
-    sessions = [pipeline.record_session('session-0', chk.tier)]
-    chk.traces += pipeline.judge_sessions(sessions, chk)
+    sessions = []
+    try:
+        sessions.append(pipeline.record_session('session-0', chk.tier))
+    except Machinery:
+        raise
+    except Exception as ex:                  # noqa: shipped files and plain requests: a run that raises is the code's doing
+        chk.violation(f'pipeline|exception-in-a-session-run|{type(ex).__name__}',
+                      dict(session='session-0', exception=f'{type(ex).__name__}: {ex}'))
+    if sessions:
+        chk.traces += pipeline.judge_sessions(sessions, chk)
     chk.cov['session_runs'] = sum(len(s['runs']) for s in sessions)
     chk.cov['tolerance_udB'] = 3
     chk.cov['measured_deviation_udB'] = 0
